@@ -1,4 +1,4 @@
-"""C05 -- no deadlock, no starved port, no starved direction (bounded response)."""
+"""C05 -- no deadlock, no starved port, no starved direction (bounded response, decomposed)."""
 from functools import partial
 import math
 from migen import *
@@ -6,132 +6,177 @@ from vlib import corebench, monitors
 
 FILES = ["litedram/core/multiplexer.py", "litedram/core/crossbar.py", "litedram/core/bankmachine.py"]
 LEVEL = "model_checking"
-TECHNIQUE = ("bounded model checking (z3 QF_BV) of the elaborated real crossbar+controller with age counters on the victim "
-             "port's pending command and outstanding data strobes; all other ports adversarial; replay on migen.sim")
-EXPLANATION = ("Liveness is checked as bounded response: the oldest un-accepted command of each port and the oldest accepted "
-               "command still waiting for its data strobe may never be older than B cycles, B a closed-form function of the "
-               "configuration only (queue depth x worst row-miss service + anti-starvation windows + one refresh).  The other "
-               "ports and the refresh phase are free solver variables.")
+TECHNIQUE = ("bounded model checking (z3 QF_BV) of the elaborated real crossbar+controller with bounded-response monitors "
+             "(ages of pending bank-machine requests, of banks with outstanding requests, of port commands and data strobes); "
+             "all ports adversarial; bounds are closed-form functions of the configuration; replay on migen.sim")
+EXPLANATION = ("Liveness is checked as bounded response, decomposed so that every bound is smaller than the BMC depth: "
+               "(1) a bank machine's pending request to the multiplexer is accepted within B_req (direction anti-starvation, "
+               "round-robin choosers, turnaround states); (2) a bank with outstanding requests gets a CAS at least every "
+               "B_head cycles (precharge/activate chains, refresh); (3) a port whose target bank is left alone by the other "
+               "ports while it requests is accepted within B_acc and gets its data strobe within B_data (generous closed forms: "
+               "only meaningful where the depth exceeds them -- stated per bench); (4) fully adversarial ports: a requesting "
+               "port is bypassed on its bank at most N times.  Other ports and the refresh phase are free solver variables.")
 
 
-def response_bound(ts, ps, ctrl, nbanks, nports):
-    """B_cfg: closed form, configuration only"""
+def bounds(ts, ps, ctrl, nbanks, nports):
     wl = math.ceil(ps.cwl / ps.nphases)
-    twtp = wl + ts.tWR + (ts.tCCD or 1)
-    miss = twtp + max(ts.tRAS or 0, 0) + ts.tRP + max(ts.tRC or 0, ts.tRP) + ts.tRCD + (ts.tRRD or 0) + 4   # one row-miss service
-    turn = ctrl.read_time + ctrl.write_time + ps.read_latency + (ts.tWTR or 0) + wl + (ts.tCCD or 1) + 4
-    refresh = ts.tRP + ts.tRFC + miss + 8
+    tccd = ts.tCCD or 1
+    turn = max(ps.read_latency - 1, (ts.tWTR or 0) + wl + tccd)
+    B_req_cas = max(ctrl.read_time, ctrl.write_time) + turn + nbanks * tccd + 2
+    B_req_row = (ts.tRRD or 0) + (ts.tFAW or 0) + nbanks + 4
+    twtp = wl + ts.tWR + tccd
+    refresh = ts.tRP + ts.tRFC + 6
+    B_head = twtp + (ts.tRAS or 0) + ts.tRP + (ts.tRC or 0) + ts.tRCD + 2 * B_req_row + 2 * B_req_cas + refresh
     depth = ctrl.cmd_buffer_depth + 2 + (1 if ctrl.cmd_buffer_buffered else 0)
-    accept = (depth + 1) * miss + 2 * turn + refresh            # until a queue slot frees for the victim (per competing port)
-    return accept * max(1, nports - 1) + miss, accept * max(1, nports - 1) + depth * miss + 2 * turn + refresh + ps.read_latency + 4
+    B_acc = 2 * (depth + 1) * B_head
+    B_data = B_acc + (depth + 1) * B_head + ps.read_latency + 4
+    return dict(B_req_cas=B_req_cas, B_req_row=B_req_row, B_head=B_head, B_acc=B_acc, B_data=B_data)
 
 
 def _extra(core, top, mon, kw, fair=True, calibrate=False):
-    ps, ts, cs = core.phy_settings, core.timing_settings, core.ctrl_settings
-    gs = core.geom_settings
+    ps, ts, cs, gs = core.phy_settings, core.timing_settings, core.ctrl_settings, core.geom_settings
+    nb = 2**gs.bankbits
     align = core.controller.interface.address_align
+    B = bounds(ts, ps, cs, nb, len(core.ports))
+    top.B = B
+    kw["bads"] = {}
+    W = 9
+    SAT = 2**W - 1
+
+    def age_counter(run, clear=None):
+        a = Signal(W)
+        if clear is None:
+            top.sync += If(run, a.eq(Mux(a == SAT, a, a + 1))).Else(a.eq(0))
+        else:
+            top.sync += If(clear | ~run, a.eq(0)).Else(a.eq(Mux(a == SAT, a, a + 1)))
+        return a
+
+    def bad(name, expr):
+        s = Signal(name_override="bad_" + name)
+        top.comb += s.eq(expr)
+        kw["bads"][name] = s
+
+    def cov(name, expr):
+        s = Signal()
+        top.comb += s.eq(expr)
+        kw["covers"][name] = s
+    v = core.ports[0]
+    banks_of = [monitors.addr_oracle(p.cmd.addr, gs.colbits, gs.bankbits, align)[0] for p in core.ports]
     if fair and len(core.ports) > 1:
-        v = core.ports[0]
-        vb = monitors.addr_oracle(v.cmd.addr, gs.colbits, gs.bankbits, align)[0]
-        clash = monitors.any_([p.cmd.valid & (monitors.addr_oracle(p.cmd.addr, gs.colbits, gs.bankbits, align)[0] == vb)
-                               for p in core.ports[1:]])
+        clash = monitors.any_([p.cmd.valid & (banks_of[i + 1] == banks_of[0]) for i, p in enumerate(core.ports[1:])])
         a = Signal(name_override="asm_no_other_port_on_victims_bank")
         top.comb += a.eq(~(v.cmd.valid & clash))
         kw["assumes"]["others_leave_victims_bank_alone_while_it_requests"] = a
-    nb = 2**core.geom_settings.bankbits
-    B_acc, B_data = response_bound(ts, ps, cs, nb, len(core.ports))
-    top.B = (B_acc, B_data)
-    kw["bads"] = {}
-    W = bits_for(B_data + 2)
-    # local progress: a bank machine's pending request to the multiplexer (CAS or row command)
+    # (1) bank machine -> multiplexer requests
     bms = [m for n_, m in core.controller._submodules if type(m).__name__ == "BankMachine"]
-    top.bm_age = []
     for bi, bm in enumerate(bms):
-        a = Signal(W)
-        top.sync += If(bm.cmd.valid & ~bm.cmd.ready, a.eq(Mux(a == 2**W - 1, a, a + 1))).Else(a.eq(0))
-        top.bm_age.append(a)
-        if calibrate and bi == 0:
-            for th in (8, 12, 16, 20, 24, 28, 32):
-                c = Signal()
-                top.comb += c.eq((a >= th) & (bm.cmd.is_read | bm.cmd.is_write))
-                kw["covers"]["cal_bm_cas_req_age_ge_%d" % th] = c
-                c = Signal()
-                top.comb += c.eq((a >= th) & bm.cmd.is_cmd)
-                kw["covers"]["cal_bm_row_req_age_ge_%d" % th] = c
+        a = age_counter(bm.cmd.valid & ~bm.cmd.ready)
+        bad("bank%d_read_write_request_not_served_within_B_req" % bi, (a > B["B_req_cas"]) & (bm.cmd.is_read | bm.cmd.is_write))
+        bad("bank%d_row_command_request_not_served_within_B_req" % bi, (a > B["B_req_row"]) & bm.cmd.is_cmd)
+        if bi == 0:
+            cov("bank0_cas_request_waits_6_cycles", (a >= 6) & (bm.cmd.is_read | bm.cmd.is_write))
+            if calibrate:
+                for th in (8, 12, 16, 20):
+                    cov("cal_bm_cas_req_age_ge_%d" % th, (a >= th) & (bm.cmd.is_read | bm.cmd.is_write))
+                    cov("cal_bm_row_req_age_ge_%d" % th, (a >= th) & bm.cmd.is_cmd)
+    # (2) bank with outstanding requests: CAS at least every B_head cycles
+    for b in range(nb):
+        outst = Signal(5)
+        acc = [p.cmd.valid & p.cmd.ready & (banks_of[i] == b) for i, p in enumerate(core.ports)]
+        nacc = Signal(max=len(core.ports) + 1)
+        top.comb += nacc.eq(sum(acc[1:], acc[0]))
+        cas = Signal()
+        top.comb += cas.eq(monitors.any_([(d["rd"] | d["wr"]) & (d["bank"] == b) for d in mon.dec]))
+        top.sync += outst.eq(outst + nacc - cas)
+        a = age_counter(outst != 0, clear=cas)
+        bad("bank%d_outstanding_request_without_cas_for_B_head" % b, a > B["B_head"])
+        if b == 0:
+            cov("bank0_head_waits_12_cycles", a >= 12)
+            if calibrate:
+                for th in (16, 20, 24, 28, 32, 36, 40):
+                    cov("cal_head_age_ge_%d" % th, a >= th)
+    # (3) port level, generous closed forms
     for i, p in enumerate(core.ports):
-        age = Signal(W)
-        top.sync += If(p.cmd.valid & ~p.cmd.ready, age.eq(Mux(age == 2**W - 1, age, age + 1))).Else(age.eq(0))
-        b = Signal(name_override="bad_p%d_command_not_accepted_within_B" % i)
-        top.comb += b.eq(age > B_acc)
-        kw["bads"]["p%d_command_not_accepted_within_B" % i] = b
-        # outstanding strobes: count accepted-but-unserved commands and the age of the oldest one
-        outw = Signal(8)
-        outr = Signal(8)
+        if fair and i != 0:
+            continue
+        age = age_counter(p.cmd.valid & ~p.cmd.ready)
+        if fair:
+            bad("p%d_command_not_accepted_within_B_acc" % i, age > B["B_acc"])
+        outw = Signal(6)
+        outr = Signal(6)
         accw = p.cmd.valid & p.cmd.ready & p.cmd.we
-        accr = p.cmd.valid & p.cmd.ready & ~p.cmd.we
+        accr = p.cmd.valid & p.cmd.ready & (p.cmd.we == 0)
         top.sync += [outw.eq(outw + accw - p.wdata.ready), outr.eq(outr + accr - p.rdata.valid)]
-        # age since the oldest outstanding became oldest (reset on every strobe)
-        agew = Signal(W)
-        ager = Signal(W)
-        top.sync += [
-            If((outw == 0) | p.wdata.ready, agew.eq(0)).Else(agew.eq(Mux(agew == 2**W - 1, agew, agew + 1))),
-            If((outr == 0) | p.rdata.valid, ager.eq(0)).Else(ager.eq(Mux(ager == 2**W - 1, ager, ager + 1))),
-        ]
-        bw = Signal(name_override="bad_p%d_write_strobe_late" % i)
-        br = Signal(name_override="bad_p%d_read_data_late" % i)
-        top.comb += [bw.eq(agew > B_data), br.eq(ager > B_data)]
-        kw["bads"]["p%d_write_data_strobe_not_within_B" % i] = bw
-        kw["bads"]["p%d_read_data_not_within_B" % i] = br
-        if i == 0 and calibrate:
-            for th in (12, 16, 20, 24, 28, 32, 40):
-                c = Signal()
-                top.comb += c.eq(age >= th)
-                kw["covers"]["cal_accept_age_ge_%d" % th] = c
-                c = Signal()
-                top.comb += c.eq((agew >= th) | (ager >= th))
-                kw["covers"]["cal_data_age_ge_%d" % th] = c
+        agew = age_counter(outw != 0, clear=p.wdata.ready)
+        ager = age_counter(outr != 0, clear=p.rdata.valid)
+        bad("p%d_write_data_strobe_not_within_B_data" % i, agew > B["B_data"])
+        bad("p%d_read_data_not_within_B_data" % i, ager > B["B_data"])
         if i == 0:
-            c = Signal()
-            top.comb += c.eq(age >= 8)
-            kw["covers"]["p0_command_stalled_8_cycles_by_others"] = c
-            c2 = Signal()
-            top.comb += c2.eq(p.rdata.valid & mon.seen["ref"] & mon.seen["wr"])
-            kw["covers"]["p0_read_served_after_refresh_and_writes"] = c2
+            cov("p0_command_stalled_8_cycles_by_others", age >= 8)
+            cov("p0_read_served_after_refresh_and_writes", p.rdata.valid & mon.seen["ref"] & mon.seen["wr"])
+    # (4) adversarial: bypass count on the victim's bank
+    if not fair and len(core.ports) > 1:
+        NB = 2 * (len(core.ports) - 1) + 2
+        byp = Signal(5)
+        others_acc = monitors.any_([p.cmd.valid & p.cmd.ready & (banks_of[i + 1] == banks_of[0])
+                                    for i, p in enumerate(core.ports[1:])])
+        top.sync += If(v.cmd.valid & ~v.cmd.ready, If(others_acc, byp.eq(Mux(byp == 31, 31, byp + 1)))).Else(byp.eq(0))
+        bad("requesting_port_bypassed_on_its_bank_more_than_N_times", byp > NB)
+        top.NB = NB
 
 
 T_MIN = dict(tRP=1, tRCD=1, tWR=1, tWTR=1, tREFI=100, tRFC=2, tFAW=None, tCCD=1, tRRD=None, tRC=None, tRAS=None)
 T_SMALL = dict(tRP=2, tRCD=2, tWR=2, tWTR=2, tREFI=100, tRFC=3, tFAW=None, tCCD=1, tRRD=None, tRC=None, tRAS=None)
 T_CCD2 = dict(tRP=1, tRCD=1, tWR=1, tWTR=1, tREFI=100, tRFC=2, tFAW=None, tCCD=2, tRRD=None, tRC=None, tRAS=None)
+T_FULL = dict(tRP=2, tRCD=2, tWR=2, tWTR=2, tREFI=100, tRFC=3, tFAW=6, tCCD=2, tRRD=2, tRC=6, tRAS=4)
 
 CONFIGS = {
-    "sdr_2b_2p_d2_rt4": (dict(phy="sdr_fast", bankbits=1, nports=2, timing=T_MIN,
-                              ctrl=dict(cmd_buffer_depth=2, read_time=4, write_time=4)), 46, 70, "qt"),
-    "ddr3h_2b_2p_d2_tccd2": (dict(phy="ddr3_fast2", bankbits=1, nports=2, timing=T_CCD2,
-                                  ctrl=dict(cmd_buffer_depth=2, read_time=4, write_time=4)), 46, 70, "qt"),
-    "ddr3_2b_2p_d2_rt8": (dict(phy="ddr3_fast", bankbits=1, nports=2, timing=T_MIN,
-                               ctrl=dict(cmd_buffer_depth=2, read_time=8, write_time=4)), 0, 70, "t"),
-    "sdr_2b_3p_d2": (dict(phy="sdr_fast", bankbits=1, nports=3, timing=T_MIN,
-                          ctrl=dict(cmd_buffer_depth=2, read_time=4, write_time=4)), 0, 90, "t"),
-    "sdr_2b_2p_d4_noap": (dict(phy="sdr_fast", bankbits=1, nports=2, timing=T_SMALL,
-                               ctrl=dict(cmd_buffer_depth=4, read_time=4, write_time=4, with_auto_precharge=False)), 0, 100, "t"),
+    # name: (core kwargs, fair, Kq, Kt, tiers)
+    "fair_sdr_2b_2p_d2_rt4": (dict(phy="sdr_fast", bankbits=1, nports=2, timing=T_MIN,
+                                   ctrl=dict(cmd_buffer_depth=2, read_time=4, write_time=4)), True, 44, 64, "qt"),
+    "fair_ddr3h_2b_2p_d2_tccd2": (dict(phy="ddr3_fast2", bankbits=1, nports=2, timing=T_CCD2,
+                                       ctrl=dict(cmd_buffer_depth=2, read_time=4, write_time=4)), True, 44, 64, "qt"),
+    "adversarial_sdr_2b_2p_d2": (dict(phy="sdr_fast", bankbits=1, nports=2, timing=T_MIN,
+                                      ctrl=dict(cmd_buffer_depth=2, read_time=4, write_time=4)), False, 30, 40, "qt"),
+    "fair_ddr3_2b_2p_d2_rt8": (dict(phy="ddr3_fast", bankbits=1, nports=2, timing=T_MIN,
+                                    ctrl=dict(cmd_buffer_depth=2, read_time=8, write_time=4)), True, 0, 64, "t"),
+    "fair_sdr_2b_3p_d2": (dict(phy="sdr_fast", bankbits=1, nports=3, timing=T_MIN,
+                               ctrl=dict(cmd_buffer_depth=2, read_time=4, write_time=4)), True, 0, 60, "t"),
+    "fair_sdr_2b_2p_d4_noap_full": (dict(phy="sdr_fast", bankbits=1, nports=2, timing=T_FULL,
+                                         ctrl=dict(cmd_buffer_depth=4, read_time=4, write_time=4, with_auto_precharge=False)), True, 0, 70, "t"),
+    "fair_sdr_4b_2p_d2": (dict(phy="sdr_fast", bankbits=2, nports=2, timing=T_SMALL,
+                               ctrl=dict(cmd_buffer_depth=2, read_time=4, write_time=4)), True, 0, 50, "t"),
 }
-BENCHES = {n: partial(corebench.core_bench, n, c[0], None, True, _extra) for n, c in CONFIGS.items()}
-BENCHES["calibrate"] = partial(corebench.core_bench, "calibrate", CONFIGS["sdr_2b_2p_d2_rt4"][0], None, True,
-                               partial(_extra, calibrate=True))
-BENCHES["calibrate2"] = partial(corebench.core_bench, "calibrate2", CONFIGS["ddr3h_2b_2p_d2_tccd2"][0], None, True,
-                                partial(_extra, calibrate=True))
+BENCHES = {n: partial(corebench.core_bench, n, c[0], None, True, partial(_extra, fair=c[1])) for n, c in CONFIGS.items()}
+for _n in ("fair_sdr_2b_2p_d2_rt4", "fair_ddr3h_2b_2p_d2_tccd2"):
+    BENCHES["calibrate_" + _n] = partial(corebench.core_bench, "calibrate_" + _n, CONFIGS[_n][0], None, True,
+                                         partial(_extra, fair=True, calibrate=True))
 
 
 def run(ctx):
-    ctx.assume("every port holds its command until accepted (master contract); otherwise all ports are adversarial free inputs")
-    ctx.assume("bound B from the closed form response_bound(configuration); small read_time/write_time (4..8) and command "
-               "buffers (2..4) so that B fits the BMC horizon; default 32/16 timers scale by the same formula (not re-proved)")
-    ctx.assume("bounded response only up to the BMC depth; true unbounded liveness is outside the claim")
-    for n, (c, kq, kt, tiers) in CONFIGS.items():
+    ctx.assume("every port holds its command until accepted (master contract); otherwise ports are adversarial free inputs")
+    ctx.assume("'fair' benches: while port 0 requests a bank the other ports do not address that bank (the crossbar's per-bank "
+               "arbitration lock-out is the subject of the 'adversarial' bench)")
+    ctx.assume("bounds are the closed forms of bounds(configuration); B_req and B_head are below the BMC depth, B_acc/B_data are "
+               "generous and exceed it (their monitors can only catch a hang whose onset is early; stated, not hidden)")
+    ctx.assume("small read_time/write_time (4..8) and command buffers (2..4); default 32/16 timers scale by the same formula")
+    for n, (c, fair, kq, kt, tiers) in CONFIGS.items():
         if ctx.only and not ctx.only.search(n):
             continue
         if ctx.tier == "quick" and "q" in tiers:
-            ctx.add(n, kq, timeout=1200)
+            ctx.add(n, kq, timeout=1500)
         elif ctx.tier == "thorough":
-            ctx.add(n, kt, timeout=3000)
+            ctx.add(n, kt, timeout=3400)
     ctx.run()
+    for bn, r in ctx.bench_records.items():
+        try:
+            r["bounds"] = bounds_of(bn)
+        except Exception:
+            pass
+
+
+def bounds_of(bn):
+    c = CONFIGS[bn][0]
+    from vlib import cfg
+    core = cfg.make_core(**c)
+    return bounds(core.timing_settings, core.phy_settings, core.ctrl_settings, 2**core.geom_settings.bankbits, len(core.ports))
